@@ -6,6 +6,7 @@ import (
 	"fmt"
 	"io"
 	"os"
+	"os/exec"
 	"path"
 	"path/filepath"
 	"sort"
@@ -467,6 +468,124 @@ func checkC01(c *BuildCase) []Violation {
 	return vs
 }
 
+// manyFilesProbe: "any number of entries". A payload with more regular files than the process may hold open at once
+// (the command runs under `ulimit -n 40` with 120 files; real limits are 1024 files and more) is a valid
+// configuration for every format: a packager must not keep every source open until the end.
+func manyFilesProbe(t *testing.T, st *Stats) {
+	if nfpmBinary() == "" {
+		return
+	}
+	c := &BuildCase{ManyFilesProbe: true, Meta: Meta{Name: "many", Arch: "amd64", Version: "1.0.0", Maintainer: "V <v@example.com>", Description: "many files"}, MTime: 1000000000, RPMBuildHost: "h"}
+	c.Tree = append(c.Tree, FNode{Rel: "src/many", Kind: "dir", Mode: 0o755, MTime: 900000000})
+	for i := 0; i < 120; i++ {
+		c.Tree = append(c.Tree, FNode{Rel: fmt.Sprintf("src/many/f%03d", i), Kind: "file", Size: 3, Seed: 100 + i, Mode: 0o644, MTime: 900000000})
+	}
+	c.Contents = []Entry{{Src: "src/many", Dst: "/opt/many", Type: "tree", Form: "tree"}}
+	st.Record(map[string]any{"probe": "120 files under ulimit -n 40"}, true, "many-files-probe")
+	st.Report(t, c, checkManyFiles(c))
+}
+
+// treeOwnerProbe: a tree whose destination is a directory every distribution ships (/srv, /opt, /var/lib, /usr/bin) with
+// a declared owner and group: the declaration holds for the files the tree places there. (What the packagers do with the
+// well-known directory itself is not asserted: the statement does not say, and nfpm deliberately leaves it alone.)
+func treeOwnerProbe(t *testing.T, st *Stats) {
+	for i, dst := range []string{"/srv", "/opt", "/var/lib", "/usr/bin", "srv"} {
+		c := &BuildCase{TreeOwnerProbe: true, Meta: Meta{Name: "towner", Arch: "amd64", Version: "1.0.0", Maintainer: "V <v@example.com>", Description: "tree owner"}, MTime: 1000000000, RPMBuildHost: "h"}
+		c.Tree = []FNode{
+			{Rel: "src/t", Kind: "dir", Mode: 0o755, MTime: 900000000},
+			{Rel: "src/t/app", Kind: "dir", Mode: 0o750, MTime: 900000000},
+			{Rel: "src/t/app/data.bin", Kind: "file", Size: 9, Seed: 5 + i, Mode: 0o640, MTime: 900000000},
+			{Rel: "src/t/top.txt", Kind: "file", Size: 4, Seed: 6 + i, Mode: 0o644, MTime: 900000000},
+		}
+		c.Contents = []Entry{{Src: "src/t", Dst: dst, Type: "tree", Form: "tree", FI: &FileInfoSpec{Owner: "appuser", Group: "appgrp"}}}
+		st.Record(c, true, "tree-owner-probe")
+		st.Report(t, c, checkTreeOwner(c))
+	}
+}
+
+func checkTreeOwner(c *BuildCase) []Violation {
+	var vs vlist
+	err := c.withRoot(func(root string) error {
+		for _, f := range AllFormats {
+			raw, err := c.BuildOne(root, f)
+			if err != nil {
+				vs.add("C01.build", f, "valid configuration rejected: %v", err)
+				continue
+			}
+			d, err := Decode(f, raw)
+			if err != nil {
+				vs.add("C01.decode", f, "%v", err)
+				continue
+			}
+			want := c.Contents[0].FI
+			n := 0
+			for _, e := range d.Payload {
+				if e.Kind != "file" {
+					continue
+				}
+				n++
+				if e.Owner != want.Owner {
+					vs.add("C01.file.owner", f, "%s: owner %q, the tree entry declares %q", e.Abs, e.Owner, want.Owner)
+				}
+				if e.Group != want.Group {
+					vs.add("C01.file.group", f, "%s: group %q, the tree entry declares %q", e.Abs, e.Group, want.Group)
+				}
+			}
+			if n != 2 {
+				vs.add("C01.missing.file", f, "%d of 2 files of the tree are in the payload", n)
+			}
+		}
+		return nil
+	})
+	if err != nil {
+		panic(err)
+	}
+	return vs
+}
+
+func checkManyFiles(c *BuildCase) []Violation {
+	bin := nfpmBinary()
+	var vs vlist
+	err := c.withRoot(func(root string) error {
+		for _, f := range AllFormats {
+			cfgPath := filepath.Join(root, "many-"+f+".yaml")
+			if err := os.WriteFile(cfgPath, c.YAMLFor(root, f), 0o644); err != nil {
+				return err
+			}
+			target := filepath.Join(root, "many-out"+extOf[f])
+			cmd := exec.Command("bash", "-c", `ulimit -n 40 && exec "$0" package -f "$1" -p "$2" -t "$3"`, bin, cfgPath, f, target)
+			cmd.Dir = root
+			if out, err := cmd.CombinedOutput(); err != nil {
+				vs.add("C01.build", f, "a tree of 120 small files cannot be packaged while at most 40 files may be open: %v: %s", err, strings.TrimSpace(string(out)))
+				continue
+			}
+			raw, err := os.ReadFile(target)
+			if err != nil {
+				return err
+			}
+			d, err := Decode(f, raw)
+			if err != nil {
+				vs.add("C01.decode", f, "many-files package: %v", err)
+				continue
+			}
+			n := 0
+			for _, e := range d.Payload {
+				if e.Kind == "file" {
+					n++
+				}
+			}
+			if n != 120 {
+				vs.add("C01.missing.file", f, "many-files package holds %d of 120 files", n)
+			}
+		}
+		return nil
+	})
+	if err != nil {
+		panic(err)
+	}
+	return vs
+}
+
 func nontrivialC01(c *BuildCase) bool {
 	_, kinds, _ := classifyBuildCase(c)
 	plan, err := Plan(c, "deb")
@@ -492,9 +611,19 @@ func TestC01(t *testing.T) {
 	var rc BuildCase
 	if replayCase(&rc) {
 		st.Record(&rc, true, "replay")
+		if rc.ManyFilesProbe {
+			st.Report(t, &rc, checkManyFiles(&rc))
+			return
+		}
+		if rc.TreeOwnerProbe {
+			st.Report(t, &rc, checkTreeOwner(&rc))
+			return
+		}
 		st.Report(t, &rc, checkC01(&rc))
 		return
 	}
+	manyFilesProbe(t, st)
+	treeOwnerProbe(t, st)
 	rapid.Check(t, func(rt *rapid.T) {
 		c := genBuildCase(rt, c01Opts)
 		c.Again = rapid.IntRange(0, 3).Draw(rt, "again") == 0
